@@ -108,9 +108,34 @@ Fixpoint closure (ds : Z -> hist) (fuel : nat) (seen front : list Z) : list Z :=
 (* strict descendants with history of [r] *)
 Definition descendants (ds : Z -> hist) (n : nat) (r : Z) : list Z := closure ds n [] [r].
 
-(* the member graph over [nodes] has no cycle: nobody is its own descendant *)
-Definition acyclicb (ds : Z -> hist) (nodes : list Z) : bool :=
+(* the member graph over [nodes] has no cycle: nobody is its own descendant (closure form,
+   used only as a cross-check of [acyclicb] in the case checker) *)
+Definition acyclic_closureb (ds : Z -> hist) (nodes : list Z) : bool :=
   forallb (fun r => negb (memZ r (descendants ds (S (length nodes)) r))) nodes.
+
+(* length of the longest chain of member edges between relations with history that starts at
+   x, explored to depth [fuel] *)
+Fixpoint height (ds : Z -> hist) (fuel : nat) (x : Z) : nat :=
+  match fuel with
+  | O => O
+  | S f =>
+      if has_history ds x
+      then S (fold_right (fun m acc => Nat.max (if has_history ds m then height ds f m else O) acc) O
+                         (nodup Z.eq_dec (members_of ds x)))
+      else O
+  end.
+
+(* acyclicity as the case oracle decides it: the heights are a rank that strictly decreases
+   along every member edge between relations with history.  This is literally the hypothesis
+   of the children-first theorem (Properties/C14.v, C14_acyclicb_rank). *)
+Definition rank_of (ds : Z -> hist) (nodes : list Z) : Z -> nat := height ds (S (length nodes)).
+
+Definition acyclicb (ds : Z -> hist) (nodes : list Z) : bool :=
+  forallb (fun x =>
+             negb (has_history ds x) ||
+             forallb (fun m => negb (has_history ds m) || (rank_of ds nodes m <? rank_of ds nodes x)%nat)
+                     (members_of ds x))
+          nodes.
 
 (* every id is preceded by all its descendants *)
 Fixpoint children_firstb (ds : Z -> hist) (n : nat) (before : list Z) (l : list Z) : bool :=
